@@ -183,27 +183,19 @@ class Classifier:
         V_, X = influence(fn, node)
         sub = [n for x in X for n in ast.walk(x)]
         inferred = self.iv(node)
-        # --- a composite whose narrowing was cleared in one branch (assignment to the path or a prefix of it
-        #     inside a compound statement) keeps the other branches' narrowing after the merge
-        ap = access_path(node)
-        if ap is not None and ap[1]:
-            for comp in ast.walk(fn):
-                if not isinstance(comp, (ast.If, ast.For, ast.While, ast.Try, ast.With, ast.Match)):
-                    continue
-                after = node.lineno > comp.end_lineno
-                # a loop that contains both the node and the assignment merges at its head (second pass)
-                in_loop = isinstance(comp, (ast.For, ast.While)) and comp.lineno < node.lineno <= comp.end_lineno
-                if isinstance(comp, (ast.If, ast.For, ast.While, ast.Try, ast.With, ast.Match)) and (after or in_loop):
-                    for st in ast.walk(comp):
-                        targets = []
-                        if isinstance(st, ast.Assign):
-                            targets = st.targets
-                        elif isinstance(st, (ast.AugAssign, ast.AnnAssign)):
-                            targets = [st.target]
-                        for t in targets:
-                            tp = access_path(t)
-                            if tp is not None and tp[0] == ap[0] and len(tp[1]) <= len(ap[1]) and ap[1][: len(tp[1])] == tp[1]:
-                                return "C01-composite-cleared-narrowing-merge"
+        # --- `<pattern with refutable sub-patterns> as name`: the sub-patterns' constraints (about elements / attributes /
+        #     values of the subject) are applied to the subject itself when the `as` name is bound
+        for m in ast.walk(fn):
+            if isinstance(m, ast.MatchAs) and m.name in V_ and isinstance(m.pattern, (ast.MatchSequence, ast.MatchMapping, ast.MatchClass)):
+                subs = list(getattr(m.pattern, "patterns", [])) + list(getattr(m.pattern, "kwd_patterns", []))
+                def refutable(p):
+                    if isinstance(p, ast.MatchStar):
+                        return False
+                    if isinstance(p, ast.MatchAs):
+                        return p.pattern is not None and refutable(p.pattern)
+                    return True
+                if any(refutable(p) for p in subs):
+                    return "C01-subpattern-constraint-on-subject"
         # --- tuple + tuple drops the receiver's element type
         for s in sub:
             if isinstance(s, ast.BinOp) and isinstance(s.op, ast.Add):
@@ -299,13 +291,4 @@ class Classifier:
         for s_ in sub:
             if isinstance(s_, ast.Call) and isinstance(s_.func, ast.Name) and s_.func.id == "sum" and self.only_literals(self.iv(s_)):
                 return "C01-sum-literal-typevar"
-        # --- break / continue inside a try statement with a finally clause: the finally body's assignments
-        #     are missing on the way out of the loop body
-        for t in ast.walk(fn):
-            if isinstance(t, ast.Try) and t.finalbody and node.lineno > t.lineno:
-                inner = [x for part in (t.body, t.handlers, t.orelse) for st in part for x in ast.walk(st)]
-                if any(isinstance(x, (ast.Break, ast.Continue)) for x in inner):
-                    stored = {n.id for st in t.finalbody for n in ast.walk(st) if isinstance(n, ast.Name) and isinstance(n.ctx, ast.Store)}
-                    if stored & V_:
-                        return "C01-finally-on-break-continue"
         return None
